@@ -468,6 +468,26 @@ def rule_r4(chk, p, t):
                 okb = okb and cs and all(unparse(x.value) in ("dot(self.model_likelihoods, self.mode_probabilities)", "dot(self.mode_probabilities, self.model_likelihoods)") for x in cs)
                 mp = [n for n in walk_no_nested(m.node) if isinstance(n, ast.Assign) and unparse(n.targets[0]) == "self.mode_probabilities"]
                 okm = len(mp) == 1 and unparse(mp[0].value) in ("matmul(mix_matrix, self.model_weights)", "mix_matrix @ self.model_weights", "mix_matrix.dot(self.model_weights)") and by and mp[0].lineno > by[0].lineno
+                # the normaliser belongs to the likelihoods it divides: no store to the likelihoods may reach the
+                # Bayes step without `c` being recomputed (underflow reset sets them to one)
+                cfg = cfg_of(m)
+                if by and cs:
+                    tgt = cfg.node_of(by[0])
+                    cnodes = [cfg.node_of(x).id for x in cs]
+                    for n in cfg.nodes:
+                        if n.kind != "stmt" or not isinstance(n.ast, (ast.Assign, ast.AugAssign)):
+                            continue
+                        tg = n.ast.targets[0] if isinstance(n.ast, ast.Assign) else n.ast.target
+                        b = tg
+                        while isinstance(b, ast.Subscript):
+                            b = b.value
+                        if unparse(b) in ("self.model_likelihoods", "self.mode_probabilities") and n.id != tgt.id and tgt.id in cfg.reachable(n.id) and not cfg.must_pass(tgt.id, via_nodes=cnodes, start=n.id):
+                            # a path from this store to the Bayes step that bypasses every `c = ...`
+                            pre = [x for x in cnodes if n.id in cfg.reachable(x)]
+                            if pre:
+                                okb = False
+                                r.violation(f"{cls.qualname}.update:normaliser", f"stale-normaliser:{unparse(n.ast)[:50]}", f"`{unparse(n.ast)[:70]}` changes the likelihoods / mode probabilities after `c` was computed and a path reaches `{unparse(by[0])[:60]}` without recomputing it: after the underflow reset the weights are divided by the old, vanishing normaliser - infinite or astronomically large 'probabilities' that do not sum to one", m.loc(n.ast))
+                                break
                 if okb and okm:
                     r.ok(f"{cls.qualname}.update:bayes", "w = L * mu / (L . mu); mu <- M w", m.loc())
                 else:
